@@ -409,3 +409,55 @@ func init() {
 		alphaIndex[l.Name] = l
 	}
 }
+
+// extraLetters are used by scripted (responder) sessions only: they refer to forged momentums by hash, which only makes
+// sense as an answer to the node's own requests or as an announcement followed by such an answer.
+var extraLetters = map[string]*letter{}
+
+func forgedFor(e *env, tag string) *nom.Momentum {
+	switch tag {
+	case "h=0":
+		return forgedMomentum(e, e.genesis, 0, 0xD0, false)
+	case "h=1":
+		return forgedMomentum(e, e.genesis, 1, 0xD1, false)
+	case "h=2":
+		return forgedMomentum(e, e.genesis, 2, 0xD2, false)
+	case "h=H+1":
+		return forgedMomentum(e, e.frontier, e.H+1, 0xD3, false)
+	}
+	panic("unknown forged tag " + tag)
+}
+
+var forgedTags = []string{"h=0", "h=1", "h=2", "h=H+1"}
+
+func init() {
+	addX := func(l *letter) {
+		l.Kind, l.Reply, l.Async = "valid", -1, true
+		l.CodeName = codeName(l.Code)
+		extraLetters[l.Name] = l
+	}
+	addX(&letter{Name: "R:hashes[]", Code: protocol.BlockHashesMsg, Class: "scripted", Build: func(*env) []byte { return enc([]types.Hash{}) }})
+	addX(&letter{Name: "R:hashes[unknown]", Code: protocol.BlockHashesMsg, Class: "scripted", Build: func(*env) []byte { return enc([]types.Hash{unknownHash}) }})
+	addX(&letter{Name: "R:hashes[genesis]", Code: protocol.BlockHashesMsg, Class: "scripted", Build: func(e *env) []byte { return enc([]types.Hash{e.genesis}) }})
+	addX(&letter{Name: "R:hashes[frontier]", Code: protocol.BlockHashesMsg, Class: "scripted", Build: func(e *env) []byte { return enc([]types.Hash{e.frontier}) }})
+	addX(&letter{Name: "R:blocks[]", Code: protocol.BlocksMsg, Class: "scripted", Build: func(*env) []byte { return enc([]*nom.DetailedMomentum{}) }})
+	addX(&letter{Name: "R:blocks[own-frontier]", Code: protocol.BlocksMsg, Class: "scripted", Build: func(e *env) []byte { return enc([]*nom.DetailedMomentum{e.n.Detailed(e.H)}) }})
+	for _, tag := range forgedTags {
+		tag := tag
+		addX(&letter{Name: "R:hashes[forged:" + tag + "]", Code: protocol.BlockHashesMsg, Class: "scripted", Build: func(e *env) []byte { return enc([]types.Hash{forgedFor(e, tag).Hash}) }})
+		addX(&letter{Name: "R:blocks[forged:" + tag + "]", Code: protocol.BlocksMsg, Class: "scripted", Build: func(e *env) []byte {
+			return enc([]*nom.DetailedMomentum{{Momentum: forgedFor(e, tag), AccountBlocks: []*nom.AccountBlock{}}})
+		}})
+		addX(&letter{Name: "NewBlockHashesMsg([forged:" + tag + "])", Code: protocol.NewBlockHashesMsg, Class: "scripted", Build: func(e *env) []byte { return enc([]types.Hash{forgedFor(e, tag).Hash}) }})
+	}
+}
+
+func lookupLetter(name string) *letter {
+	if l := alphaIndex[name]; l != nil {
+		return l
+	}
+	if l := extraLetters[name]; l != nil {
+		return l
+	}
+	panic("unknown letter " + name)
+}
